@@ -187,3 +187,10 @@ func CountByte(s string, b byte) int { return strings.Count(s, string([]byte{b})
 func Symbolic() bool { return false }
 
 func Reach(tag string) { Reached = append(Reached, "reach:"+tag) }
+
+func IteStr(c bool, a, b string) string {
+	if c {
+		return a
+	}
+	return b
+}
